@@ -583,6 +583,7 @@ def partitions(tier):
             add("crc:%s:%d" % (kind, n), "crc_equiv", kind=kind, n=n, chain=0)
         for n in ([2, 3, 4, 5, 6, 7, 8, 12, 16] if q else list(range(2, 25))):
             add("crcind:%s:%d" % (kind, n), "crc_equiv", kind=kind, n=n, chain=1)
+            parts[-1]['max_path_time'] = 900    # one long solver-bound path per partition
         for n in range(0, (4 if q else 6) + 1):
             add("crcapi:%s:%d" % (kind, n), "crc_api", kind=kind, n=n)
     add("crc:step", "crc_step")
